@@ -599,21 +599,6 @@ mod verif_c03_packet {
         glue_body::<40>();
     }
 
-    /// the same glue contract on the larger datagram bound (thorough tier)
-    #[kani::proof]
-    #[kani::unwind(9)]
-    #[kani::stub(core::fmt::write, noop_fmt_write)]
-    #[kani::stub(be_packet_type, contract_be_packet_type)]
-    #[kani::stub(be_header, contract_be_header)]
-    fn full_be_packet_glue_contract() {
-        //   "C03.packet.be_packet.data.offset_ge_1" "C03.packet.be_packet.data.offset_plus_20_inside_packet"
-        //   "C03.packet.be_packet.data.splits_datagram_without_loss" "C03.packet.be_packet.ok_consumes_input"
-        //   "C03.packet.be_packet.data.packet_bytes_are_datagram_prefix" "C03.packet.be_packet.data.rest_is_datagram_suffix"
-        //   "C03.packet.be_packet.short.takes_rest_of_datagram" "C03.packet.be_packet.vn_retry_consume_datagram"
-        //   "C03.packet.be_packet.err_is_a_drop_reason"
-        glue_body::<64>();
-    }
-
     /// KNOWN FINDING (confined): a long header whose DCID or SCID length byte exceeds 20. RFC 9000 §17.2:
     /// the packet MUST be dropped. be_header reports it as nom::Err::Error(TooLarge) (proved:
     /// C03.packet.header.long.error_iff_cid_len_over_20); be_packet maps every non-Incomplete error of
